@@ -209,5 +209,7 @@ def pool_map(fn, items, procs=None, chunksize=None):
     if len(items) < 200 or procs <= 1:
         return [fn(x) for x in items]
     ctxm = mp.get_context("fork")
+    # chunks are capped: one pickled chunk must stay far below the 2 GiB a pipe message can carry comfortably
+    chunk = min(chunksize or max(1, len(items) // (procs * 8)), 2000)
     with ctxm.Pool(procs) as p:
-        return p.map(fn, items, chunksize or max(1, len(items) // (procs * 8)))
+        return p.map(fn, items, chunk)
